@@ -164,6 +164,14 @@ class FoldRaise(AnalysisError):
     """the folded code executed a `raise` statement"""
 
 
+class _Break(Exception):
+    pass
+
+
+class _Continue(Exception):
+    pass
+
+
 class _Return(Exception):
     def __init__(self, value):
         self.value = value
@@ -283,9 +291,38 @@ class Folder:
         elif isinstance(st, ast.If):
             self._exec_block(st.body if self._eval(st.test, e) else st.orelse, e)
         elif isinstance(st, ast.For):
-            for item in self._eval(st.iter, e):
+            broke = False
+            for item in list(self._eval(st.iter, e)):
                 self._assign(st.target, item, e)
-                self._exec_block(st.body, e)
+                try:
+                    self._exec_block(st.body, e)
+                except _Continue:
+                    continue
+                except _Break:
+                    broke = True
+                    break
+            if not broke:
+                self._exec_block(st.orelse, e)
+        elif isinstance(st, ast.While):
+            broke = False
+            while self._eval(st.test, e):
+                self._tick()
+                try:
+                    self._exec_block(st.body, e)
+                except _Continue:
+                    continue
+                except _Break:
+                    broke = True
+                    break
+            if not broke:
+                self._exec_block(st.orelse, e)
+        elif isinstance(st, ast.Break):
+            raise _Break()
+        elif isinstance(st, ast.Continue):
+            raise _Continue()
+        elif isinstance(st, ast.Assert):
+            if not self._eval(st.test, e):
+                raise FoldRaise("AssertionError")
         elif isinstance(st, ast.Pass):
             pass
         elif isinstance(st, ast.FunctionDef):
@@ -624,6 +661,13 @@ class Folder:
         if isinstance(tgt, EnumClass):
             return tgt.by_value(args[0])
         if isinstance(tgt, ClassRef):
+            if tgt.cls.name in getattr(self, "object_classes", ()):
+                # a plain in-package value class a rule asked to have really constructed: run its __init__
+                obj = Stub(tgt.cls.name, {}, cls=tgt.cls)
+                init = tgt.cls.find_method("__init__")
+                if init is not None:
+                    self.call_function(init, args, kw, self_value=obj)
+                return obj
             return Inst(tgt.cls, args, kw)
         if isinstance(tgt, FuncRef):
             return self.call_function(tgt.fn, args, kw)
@@ -704,6 +748,8 @@ class Folder:
             else:
                 raise AnalysisError(f"constfold: missing argument {p} for {fn.key}")
         self._depth = getattr(self, "_depth", 0) + 1
+        if self._depth == 1:
+            self.fuel = max(self.fuel, getattr(self, "fuel_per_call", 2_000_000))   # the bound is per top-level fold
         try:
             self._exec_block(fn.node.body, menv)
         except _Return as r:
